@@ -234,7 +234,7 @@ pub fn exec(sc: &Sc) -> Outcome {
 }
 
 pub fn scenarios(tier: Tier) -> Vec<Sc> {
-    let thorough = tier == Tier::Thorough;
+    let thorough = tier >= Tier::Thorough;
     let mut styles: Vec<Style> = vec![];
     let ccodes: Vec<u32> = vec![0, 1, 255, 256, 65535, 1 << 31, u32::MAX];
     let qcodes: Vec<u64> = vec![0, 63, 64, 16383, 16384, (1 << 30) - 1, 1 << 30, rc::VARINT_MAX];
@@ -249,6 +249,26 @@ pub fn scenarios(tier: Tier) -> Vec<Sc> {
                 continue;
             }
             styles.push(Style::Capsule { code: *c, reason: r.clone() });
+        }
+    }
+    if tier >= Tier::Deep {
+        // every reason length up to the 1024-byte limit (one code whose four bytes differ: byte order), every single-bit code
+        for len in 0..=1024usize {
+            styles.push(Style::Capsule { code: 0x0102_0304, reason: (0..len).map(|i| b'a' + (i % 26) as u8).collect() });
+        }
+        for k in 0..32u32 {
+            styles.push(Style::Capsule { code: 1 << k, reason: format!("bit {k}").into_bytes() });
+            styles.push(Style::Capsule { code: !(1u32 << k), reason: vec![] });
+        }
+        for k in 0..62u32 {
+            styles.push(Style::QuicClose { code: 1u64 << k, reason: format!("bit {k}").into_bytes() });
+            styles.push(Style::QuicClose { code: rc::VARINT_MAX ^ (1u64 << k), reason: vec![0xc3] });
+        }
+        for len in 0..=512usize {
+            styles.push(Style::QuicClose { code: 0x0102_0304_0506, reason: (0..len).map(|i| (i % 256) as u8).collect() });
+        }
+        for c in [1u64, 63, 64, 0x100, 0x10b, 0x10d, 1 << 30, (1 << 62) - 2] {
+            styles.push(Style::Reset(c));
         }
     }
     styles.push(Style::CapsuleAfterNoise { code: 77, reason: b"after noise".to_vec() });
@@ -285,7 +305,7 @@ pub fn scenarios(tier: Tier) -> Vec<Sc> {
             }
         }
     }
-    out
+    dedup(out, |s| s.to_json().to_string())
 }
 
 pub fn run_check(args: &Args) -> i32 {
